@@ -6,7 +6,7 @@ from mc.engine import Outcome, sha
 
 ID = 'C07'
 ENGINE = 'E2 explicit-state BFS over add_* histories'
-RULE = ("breadth-first search over histories of add_* events (origin with/without explicit reference at any position, "
+RULE = ("breadth-first search over histories of add_* events (origin with/without explicit reference - also reference 0 requested explicitly - at any position, "
         "axis, zone, long name, channels in default and named sets, frame, parameter, tool, group, no-format, zone "
         "with the second origin's reference; thorough adds computation, splice, path, calibration, process, equipment, "
         "well reference point), all objects named 'X' so that names collide within and across types; each state is "
@@ -15,7 +15,7 @@ RULE = ("breadth-first search over histories of add_* events (origin with/withou
         "identities and references); plus, for 2..3 logical files with distinct set names, all interleavings of their "
         "add_* sequences (origins with explicit references, objects before/after the origin): identities, references "
         "and origins must stay inside each logical file; and 3 / 129 / 130 / 256 same-named zones or channels (copy "
-        "numbers up to the one-byte limit) with references to the copies around 127/128 and to the last one; and re-identification: 1..2 of nine referenced objects (axis, channel, frame, group, long name, no-format, parameter, tool, zone) moved to a second origin between two writes of one file object, the second file checked for identities, every reference, frame-data and no-format record headers; non-trivial = a transition / case whose file was written and "
+        "numbers up to the one-byte limit) with references to the copies around 127/128 and to the last one; equally named objects in two differently named sets for every one of the 21 kinds (orders AB, AAB, ABA, ABB; frame-data and no-format records checked against the identities); and re-identification: 1..2 of nine referenced objects (axis, channel, frame, group, long name, no-format, parameter, tool, zone) moved to a second origin between two writes of one file object, the second file checked for identities, every reference, frame-data and no-format record headers; non-trivial = a transition / case whose file was written and "
         "compared")
 ASSUMPTIONS = ["strict reader mc/rp66.py", "reference model mc/model.py (copy number = earlier same-named objects of "
                "the set; origin = explicit reference, else defining origin's, back-filled when the origin comes later)"]
